@@ -116,6 +116,8 @@ def index():
         conf = m.get("verification", {}).get("confirmed")
         if m.get("retired"):
             cell.append("RETIRED: " + m["retired"])
+        if m.get("not_reported"):
+            cell.append("NOT REPORTED (by design): " + m["not_reported"])
         rows.append(f"| {sid} | {m['property']} | {m.get('summary','')} | {m.get('needs','')} | {'yes' if conf else 'no'} | {'; '.join(cell)} |")
     with open(os.path.join(S, "INDEX.md"), "w") as fh:
         fh.write("# Seeded property-breaking changes\n\nWritten by independent sub-agents (property text + scratch worktree only).\n\n"
